@@ -177,6 +177,42 @@ def has_dest_present_fact(fs, tests):
 
 
 TESTS = {"present": ("InstanceBuilder::has_property", "::contains_key", "::contains")}
+CANON_OF_KEY = ("in", "canonical_descriptor_of_this_key")
+
+
+def has_other_spelling_fact(fs):
+    """the path leaves this key alone because the SAME property is on the instance under its canonical spelling, which is
+    another key (`canonical.name != property_name && instance.properties.contains_key(canonical.name)`): that key's own
+    iteration carries the value, migration included.  Both halves are required — without the inequality the canonical
+    key would skip itself."""
+    present = differs = False
+    stack = list(fs)
+    while stack:
+        f = stack.pop()
+        g, neg = unneg(f)
+        if not isinstance(g, tuple) or not g:
+            continue
+        if g[0] == "op" and g[1] == "&&" and not neg:
+            stack.extend([g[2], g[3]])
+            continue
+        if g[0] == "and" and not neg:
+            stack.extend(g[1])
+            continue
+        if g[0] == "app" and any(g[1].endswith(t) for t in TESTS["present"]) and contains(g, CANON_OF_KEY) and not neg:
+            present = True
+        if g[0] == "op" and g[1] in ("!=", "==") and contains(g, CANON_OF_KEY) and ((g[1] == "!=") != neg):
+            differs = True
+    return present and differs
+
+
+def has_already_written_fact(fs):
+    """the path leaves this key alone because an element of the same serialized name has been written for this instance
+    (`!written.insert(name)` / `written.contains(name)` on a set local to the function)"""
+    for f in fs:
+        g, neg = unneg(f)
+        if isinstance(g, tuple) and g and g[0] == "app" and isinstance(g[1], str) and ((g[1].endswith("HashSet::<T, S, A>::insert") or g[1].endswith("BTreeSet::<T, A>::insert")) and neg or (g[1].endswith(("Set::<T, S, A>::contains", "Set::<T, A>::contains")) and not neg)):
+            return True
+    return False
 
 
 def analyse_paths(paths, name_idx, value_idx, store_kinds, loop_body=False):
@@ -188,7 +224,7 @@ def analyse_paths(paths, name_idx, value_idx, store_kinds, loop_body=False):
         if st == "ok" and any(has_try_perform(x) for k, a in stores for x in a) and not any(unneg(f)[0][0] == "is" and contains(unneg(f)[0], PERFORM) for f in fs if isinstance(unneg(f)[0], tuple) and unneg(f)[0]):
             res["err"].add("hard error (returns Err)")      # `perform(..)?`: the failure leaves through the error exit
         mig_stores = [(k, a) for k, a in stores if perform_terms(a[value_idx])]
-        if st is None and not stores and x not in ("err",) and not (loop_body and x == "return") and not (x == "return" and v is not None and not sym.is_var(v, sym.OK) and v != sym.UNIT) and not has_dest_present_fact(fs, TESTS):
+        if st is None and not stores and x not in ("err",) and not (loop_body and x == "return") and not (x == "return" and v is not None and not sym.is_var(v, sym.OK) and v != sym.UNIT) and not has_dest_present_fact(fs, TESTS) and not has_other_spelling_fact(fs) and not has_already_written_fact(fs):
             # the legacy value is let go without an attempt to migrate it although nothing says the new property is there
             res["dropped_unmigrated"].append([sym.term_str(f, 3) for f in fs][:4])
         if st == "ok":
@@ -247,6 +283,7 @@ def site_xml_writer(prog):
              (re.compile(r"XmlEventWriter::<W>::write$"), const_prim(sym.var(sym.OK, sym.UNIT))),
              (re.compile(r"core::find_serialized_property_descriptor$"), const_prim(sym.var(sym.SOME, desc))),
              (re.compile(r"EncodeOptions::<'db>::use_reflection$"), const_prim(C(True))),
+             (re.compile(r"core::find_canonical_property_descriptor$"), const_prim(sym.var(sym.SOME, CANON_OF_KEY))),
              (re.compile(r"ConvertVariant::try_convert_ref$|ConvertVariant::try_convert_cow$"), const_prim(sym.var(sym.OK, ("in", "converted")))),
              (re.compile(r"^rbx_xml::serializer::serialize_instance$"), const_prim(sym.var(sym.OK, sym.UNIT)))]
     env = {p["lid"]: ("in", p["name"]) for p in fn.params}
